@@ -103,16 +103,16 @@ UDP – whether or not the media had been started. -/
 def unregister (sv : Server) (ss : Session) : Server :=
   if ss.transport = some .udp then
     { sv with
-      rtp  := ss.medias.foldl (fun m sm => removeClient m ss.authorIP sm.rtpPort) sv.rtp
-      rtcp := ss.medias.foldl (fun m sm => removeClient m ss.authorIP sm.rtcpPort) sv.rtcp }
+      rtp  := ss.medias.foldl (fun m sm => removeClient m ss.authorIP ss.authorZone sm.rtpPort) sv.rtp
+      rtcp := ss.medias.foldl (fun m sm => removeClient m ss.authorIP ss.authorZone sm.rtcpPort) sv.rtcp }
   else sv
 
 /-- `serverSessionMedia.start` for every media after PLAY (RTCP only: no back channels) or RECORD. -/
 def register (sv : Server) (ss : Session) (recording : Bool) : Server :=
   if ss.transport = some .udp then
     { sv with
-      rtp  := if recording then ss.medias.foldl (fun m sm => addClient m ss.authorIP sm.rtpPort (ss.id, sm.idx)) sv.rtp else sv.rtp
-      rtcp := ss.medias.foldl (fun m sm => addClient m ss.authorIP sm.rtcpPort (ss.id, sm.idx)) sv.rtcp }
+      rtp  := if recording then ss.medias.foldl (fun m sm => addClient m ss.authorIP ss.authorZone sm.rtpPort (ss.id, sm.idx)) sv.rtp else sv.rtp
+      rtcp := ss.medias.foldl (fun m sm => addClient m ss.authorIP ss.authorZone sm.rtcpPort (ss.id, sm.idx)) sv.rtcp }
   else sv
 
 /-- the end of `ServerSession.run`: associated connections are closed, medias are closed, the session
@@ -282,8 +282,8 @@ def openConn (sv : Server) (cid : Nat) (ip : IP) (zone : String) : Server :=
   else { sv with conns := sv.conns ++ [⟨cid, ip, zone, none⟩], nextCid := cid + 1 }
 
 /-- a datagram on the RTP (`rtcp = false`) or RTCP listener: who gets it -/
-def datagram (sv : Server) (rtcp : Bool) (ip : IP) (port : Int) : Option (Nat × Nat) :=
-  dispatch (if rtcp then sv.rtcp else sv.rtp) ip port
+def datagram (sv : Server) (rtcp : Bool) (ip : IP) (zone : String) (port : Int) : Option (Nat × Nat) :=
+  dispatch (if rtcp then sv.rtcp else sv.rtp) ip zone port
 
 end Server
 end Rtsp.Peer
